@@ -249,7 +249,8 @@ PROPS = {
              "need": ["RotateSigners/ok", "RotateSigners/operator_auth", "Tick/ok"] + ([] if d == "d0" else ["RotateSigners/delay"]),
              "control": wait_longer_control}
             # d10z / d10top: the absolute ledger clock is 0 / within 1000 s of u64::MAX at deployment
-            for d in ["d0", "d1", "d10", "d10big", "d10z", "d10top"]
+            # dmax / dmax1: the delay is u64::MAX / u64::MAX - 1 (last rotation + delay does not fit into u64)
+            for d in ["d0", "d1", "d10", "d10big", "d10z", "d10top", "dmax", "dmax1"]
         ] + [
             {"kind": "graph", "spec": "MC_C09", "cfg": "MC_C09_d30", "tiers": ["thorough"], "module": "Gateway", "evkinds": GW_EVENTS,
              "need": ["RotateSigners/ok", "RotateSigners/delay"], "control": wait_longer_control},
